@@ -21,7 +21,7 @@ Qed.
 Definition rw_k_Prev : list N := [80; 114; 101; 118].
 Definition rw_k_XRefStm : list N := [88; 82; 101; 102; 83; 116; 109].
 
-Lemma rd_read_xref_section_lemma : forall file max_id xoff offs objs ren d' id1 id2 zs TL,
+Lemma rd_read_xref_section_step : forall file max_id xoff offs objs ren d' id1 id2 zs TL,
   let n := N.of_nat (length offs) in
   let o := rw_trailer_obj d' id1 id2 in
   let F := 10 :: rd_s_startxref ++ 10 :: TL in
